@@ -29,6 +29,7 @@ func c04(c *Ctx) {
 	sState(c, "R7/S-STATE")
 	sMatch(c, "R8/S-MATCH")
 	c19p(c, "R9/C19.")
+	sLockDiscipline(c, "R10/S-LOCK", "raftState", "LogCache")
 }
 
 // prevCheckTracks: tracks of the previous-entry check in appendEntries.
